@@ -109,9 +109,22 @@ def rule_digest(F):
     res.sample({"fn": "process_file", "INV": INV, "VAL": VAL, "OUT": OUT, "ok_exits": oks})
     # ---------------- compile_component_rlib
     c = F.one("build::compile_component_rlib")
-    labels = _named_locals(c, {"digest_path": "DIGEST"})
+    # which local is the component digest's path: the PathBuf that the (only) fs::remove_file of this function is given; a
+    # local named digest_path if the function removes nothing (then the rule below reports the missing invalidation)
+    cand = {i: "P%d" % i for i, (ty, name) in enumerate(c.locals) if name and "PathBuf" in ty}
+    labels = {}
+    if cand:
+        probe = Taint(c, cand)
+        rm = [tm for _bb, tm in c.calls() if short(callee(tm)) == "std::fs::remove_file"]
+        hit = set()
+        for tm in rm:
+            hit |= {l for l in probe.read_op(tm["args"][0]) if l.startswith("P")}
+        if len(hit) == 1:
+            labels = {int(next(iter(hit))[1:]): "DIGEST"}
     if not labels:
-        raise AnchorError("compile_component_rlib: no local named digest_path")
+        labels = _named_locals(c, {"digest_path": "DIGEST"})
+    if not labels:
+        raise AnchorError("compile_component_rlib: the path of the component digest was not identified")
     t = Taint(c, labels)
     INV, VAL, OUT = [], [], []
     status_bb, success_bb = None, None
@@ -798,16 +811,17 @@ def rule_dirtaint(F):
     """M-DIRTAINT: directory layout and environment do not reach the emitters or the digest."""
     res = RuleResult("M-DIRTAINT")
     b = F.one("build::process_file")
-    cfg = b.param_local("config")
+    by_type = lambda frag: [i for i in range(1, b.nargs + 1) if frag in b.local_ty(i)]
+    cfg = (by_type("build::Config") or [b.param_local("config")])[0]
     if cfg is None:
-        raise AnchorError("process_file has no parameter named config")
+        raise AnchorError("process_file has no parameter of type Config")
     # Config { in_dir (.0), out_dir (.1), component_build (.2) } by declaration order; component_out_dir etc. inside .2
     srcs = {}
     # the theory's file *name* is an input of compilation, the directory it lies in (relative to the source root) is not:
     # `in_file` carries RELPATH, and only Path::file_stem strips it
-    inf = b.param_local("in_file")
+    inf = (by_type("path::Path") or [b.param_local("in_file")])[0]
     if inf is None:
-        raise AnchorError("process_file has no parameter named in_file")
+        raise AnchorError("process_file has no parameter of type Path")
     t = Taint(b, {inf: "RELPATH"}, summaries=_dir_summaries)
     t.write([cfg, [".0"]], {"DIR"})
     t.write([cfg, [".1"]], {"DIR"})
